@@ -10,7 +10,7 @@ for sid in ids:
     props = [p for p, v in meta.get("checks", {}).items() if v == "caught"] or [meta.get("property", sid.split("-")[0][-3:])]
     out = subprocess.run(["/verif/tools/try_mutant.sh", d] + props, capture_output=True, text=True).stdout
     lines = [l for l in out.splitlines() if l.startswith("check ")]
-    res = {l.split()[1].rstrip(":"): ("caught" if "exit 1" in l else "missed") for l in lines}
+    res = {l.split()[1].rstrip(":"): ("caught" if "exit 1 " in l else "missed") for l in lines}
     applies = "patch does not apply" not in out
     print(sid, "applies" if applies else "PATCH DOES NOT APPLY", res, flush=True)
     if applies:
